@@ -374,6 +374,10 @@ func runC08(c *Ctx) {
 	// interpreted later, outside the decoder's error handling
 	checkAttrsValidatedAtDecode(c, "O7")
 	checkRequestConstructorErrorExamined(c, "O8")
+	// O9 (shared with C20.Z1): the unchecked primitives are called only where the length is known — also in the client
+	c.withOnly("Z1", "O9", func() { runC20(c) })
+	// O10 (shared with C07.R1): what could not be decoded is not passed on (a nil or half-decoded packet crashes a worker)
+	c.withOnly("R1", "O10", func() { checkBadPacketEndsSession(c) })
 
 	// every call site of a function whose obligations were lifted establishes the requirement: those are the
 	// "call" obligations already decided above; make sure none was silently skipped
